@@ -92,6 +92,6 @@ m={"version":1,
  "engines":[{"name":"mc","path":"/verif/mc","serves_properties":sorted(CLAIMED),"kind_free_text":"Rust harness (cargo workspace): exhaustive SWEEP / BFS / FAULT / LANG / ISOLATE engines that call the real jsonb functions and compare every execution with the independent reference model crate `refmodel`"}],
  "checks":checks,
  "not_applicable":[{"property_id":p['id'],"reason":NOT_YET} for p in props if p['id'] not in CLAIMED],
- "notes":"See DESIGN.md. Known findings: known_findings.json. Exit codes: 0 held, 1 violation (VIOLATION line), 2 machinery failure. evidence/<id>.json is rewritten by every run; evidence/quick/<id>.json and evidence/thorough/<id>.json keep the last run of each tier. seeded/ holds 457 confirmed property-breaking changes (12 rounds) with the checks that report them (DESIGN §7.5-§7.15, §7.17)."}
+ "notes":"See DESIGN.md. Known findings: known_findings.json. Exit codes: 0 held, 1 violation (VIOLATION line), 2 machinery failure. evidence/<id>.json is rewritten by every run; evidence/quick/<id>.json and evidence/thorough/<id>.json keep the last run of each tier. seeded/ holds 477 confirmed property-breaking changes (13 rounds) with the checks that report them (DESIGN §7.5-§7.15, §7.17, §7.18)."}
 json.dump(m,open('/verif/MANIFEST.json','w'),indent=1)
 print("claimed",len(checks),"not_applicable",len(m['not_applicable']))
